@@ -361,6 +361,55 @@ Proof.
   intros [|x [|y l]] H; try reflexivity. simpl in H. lia.
 Qed.
 
+(* whenever the sort returns, it returns a permutation *)
+Lemma sort_skips_perm : forall (l l' : list skip), sort_skips l = Ok l' -> Permutation l l'.
+Proof.
+  intros l l' H. destruct (le_lt_dec (length l) 1) as [Hs|Hl].
+  - rewrite (sort_skips_short l Hs) in H. inversion H. reflexivity.
+  - pose proof (sort_skips_all_started l l' Hl H) as F.
+    destruct (sort_skips_ok l F) as (l'' & E & P & _). rewrite E in H. inversion H; subst. exact P.
+Qed.
+
+Lemma NoDup_app_intro : forall {A} (l1 l2 : list A),
+  NoDup l1 -> NoDup l2 -> (forall x, In x l1 -> In x l2 -> False) -> NoDup (l1 ++ l2).
+Proof.
+  intros A l1 l2 H1 H2 Hd. induction l1 as [|x l1 IH]; simpl; [exact H2|].
+  inversion H1 as [|? ? Hx Hl]; subst. constructor.
+  - intro Hin. apply in_app_or in Hin. destruct Hin as [Hin|Hin]; [now apply Hx|].
+    apply (Hd x); [now left|exact Hin].
+  - apply IH; [exact Hl|]. intros y Hy. apply Hd. now right.
+Qed.
+
+Lemma NoDup_map_filter : forall {A B} (f : A -> B) (p : A -> bool) (l : list A),
+  NoDup (map f l) -> NoDup (map f (filter p l)).
+Proof.
+  intros A B f p l. induction l as [|x l IH]; intro H; simpl; [constructor|].
+  inversion H as [|? ? Hx Hl]; subst. destruct (p x); simpl; [|now apply IH].
+  constructor; [|now apply IH]. intro Hin. apply Hx.
+  apply in_map_iff in Hin. destruct Hin as [y [Ey Hy]]. apply filter_In in Hy.
+  apply in_map_iff. exists y. tauto.
+Qed.
+
+(* every reference text is appended once: the keys whose texts are appended are
+   pairwise different when the skip list names each entity once *)
+Lemma appended_keys_nodup : forall (skips sorted : list skip) (missing : list K),
+  NoDup (map sk_key skips) -> NoDup missing ->
+  (forall k, In k missing -> ~ In k (map sk_key skips)) ->
+  sort_skips skips = Ok sorted ->
+  NoDup (missing ++ map sk_key (non_junk sorted)).
+Proof.
+  intros skips sorted missing Hs Hm Hd E.
+  pose proof (sort_skips_perm _ _ E) as P.
+  assert (NoDup (map sk_key sorted)) as Hs'.
+  { eapply Permutation_NoDup; [apply Permutation_map; exact P|exact Hs]. }
+  apply NoDup_app_intro; [exact Hm|now apply NoDup_map_filter|].
+  intros k Hk Hk'. apply (Hd k Hk).
+  unfold non_junk in Hk'. apply in_map_iff in Hk'. destruct Hk' as [y [Ey Hy]].
+  apply filter_In in Hy. destruct Hy as [Hy _].
+  apply in_map_iff. exists y. split; [exact Ey|].
+  apply (Permutation_in _ (Permutation_sym P) Hy).
+Qed.
+
 End Sort.
 
 (* ---- the splice theorem --------------------------------------------------- *)
